@@ -2223,6 +2223,8 @@ impl Translator {
                     AssignOperator::Equal => match &*expr1.kind {
                         // variable assignment
                         ExprKind::Variable(_) => {
+                            // a void value is still evaluated for its effects, but not stored
+                            self.translate_expr(rvalue, offset_table, mono, st);
                             if rvalue_ty != SolvedType::Void {
                                 let Declaration::Var(node) =
                                     &self.statics.resolution_map[&expr1.id]
@@ -2230,20 +2232,22 @@ impl Translator {
                                     panic!("expected variableto be defined in node");
                                 };
                                 let idx = offset_table.get(&node.id()).unwrap();
-                                self.translate_expr(rvalue, offset_table, mono, st);
                                 self.emit(st, Instr::StoreOffset(*idx));
                             }
                         }
                         // struct member assignment
                         ExprKind::MemberAccess(accessed, field_name) => {
+                            // TODO: if member function is being assigned to, that should be disallowed earlier by the compiler
+                            // for instance, Person.fullname = (p: Person) -> "hello world". Should not be allowed.
+                            self.translate_expr(rvalue, offset_table, mono, st);
+                            self.translate_expr(accessed, offset_table, mono, st);
                             if rvalue_ty != SolvedType::Void {
-                                // TODO: if member function is being assigned to, that should be disallowed earlier by the compiler
-                                // for instance, Person.fullname = (p: Person) -> "hello world". Should not be allowed.
-                                self.translate_expr(rvalue, offset_table, mono, st);
-                                self.translate_expr(accessed, offset_table, mono, st);
                                 let idx =
                                     self.idx_of_field(&self.statics, mono, accessed, &field_name.v);
                                 self.emit(st, Instr::SetField(idx, Reg::Top));
+                            } else {
+                                // void fields are not stored; drop the struct
+                                self.emit(st, Instr::Pop);
                             }
                         }
                         // array assignment
